@@ -38,9 +38,61 @@ def inplace_sites(fn):
 _TASK = {}
 
 
+_HISTORY = {}
+
+
+def _history_probe(mod_name, fn_name):
+    """None: no probe for this function; else the list of failures of the real function evaluated on a freshly executed module in three
+    call orders (grid order, reverse, single precision first) against the reference"""
+    from contracts import kernels as K
+    if mod_name != 'conversion.tof' or fn_name not in K.KERNELS:
+        return None
+
+    class _C:
+        seed = 0
+    saved = K.KERNELS
+    try:
+        K.KERNELS = {fn_name: saved[fn_name]}
+        total, cells, fails = K.grid_check(_C, per_kernel=None)
+    finally:
+        K.KERNELS = saved
+    return fails
+
+
+def _module_containers(mod_name):
+    """module-level dict / list / set objects of the verified module (caches, registries, tables)"""
+    m = kit._loaded.get(mod_name)
+    if m is None:
+        return {}
+    return {k: v for k, v in vars(m).items() if not k.startswith('__') and isinstance(v, (dict, list, set)) and k not in ('_vf_int_', '_vf_float_')}
+
+
+def _snapshot(mod_name):
+    return {k: (v, copy.copy(v)) for k, v in _module_containers(mod_name).items()}
+
+
+def _changed_containers(snap):
+    """names of module-level containers whose content differs from the snapshot (by identity of the elements); restores them"""
+    out = []
+    for k, (obj, was) in snap.items():
+        same = len(obj) == len(was) and (all(a is b for a, b in zip(obj, was)) if isinstance(obj, list) else
+                                         (set(map(id, obj)) == set(map(id, was)) if isinstance(obj, set) else
+                                          list(obj) == list(was) and all(obj[x] is was[x] for x in was)))
+        if not same:
+            out.append(k)
+            if isinstance(obj, dict):
+                obj.clear(); obj.update(was)
+            elif isinstance(obj, list):
+                obj[:] = was
+            else:
+                obj.clear(); obj.update(was)
+    return out
+
+
 def _variant_worker(vname):
     """runs in a forked child: explore one operand-shape variant, return plain data only"""
     t = _TASK
+    snap = _snapshot(t['mod_name'])
     try:
         with kit.dims_policy(t['variants'][vname]):
             paths, st = core.explore(t['make_call'], t['base'], t['opts'], CATCH, 600)
@@ -48,7 +100,9 @@ def _variant_worker(vname):
         return vname, 'unsupported', str(e)[:160]
     except core.PathLimit as e:
         return vname, 'pathlimit', str(e)[:160]
-    return vname, 'ok', _summarise(paths), st
+    sm = _summarise(paths)
+    sm['module_state_changed'] = _changed_containers(snap)
+    return vname, 'ok', sm, st
 
 
 def _summarise(paths):
@@ -75,14 +129,32 @@ def frame_run(chk, label, mod_name, fn_name, make_call, base=(), expect_writes=T
     full_base = list(base) + kit.CONST_AXIOMS
 
     def register(lbl, sm):
+        if sm.get('module_state_changed'):
+            # the call wrote to a module-level container (a cache, a registry).  That is a violation only if a later result depends
+            # on it: decided by a history probe on the real function (fresh module, several call orders) where one is available
+            key = (mod_name, fn_name)
+            if key not in _HISTORY:
+                _HISTORY[key] = _history_probe(mod_name, fn_name)
+            probe = _HISTORY[key]
+            if probe is None or probe:
+                sm = dict(sm, n_bad=sm['n_bad'] + 1, bad=sm['bad'] + [{
+                    'write': 'module-level container(s) changed by the call' + (' and a later result depends on it' if probe else ' (no history probe for this function)'),
+                    'target_origin': 'global', 'target': sm['module_state_changed'], 'history_probe': (probe or [])[:1]}])
+            else:
+                chk.extra.setdefault('module_state_written_but_results_history_independent', [])
+                if f'{mod_name}:{fn_name}' not in chk.extra['module_state_written_but_results_history_independent']:
+                    chk.extra['module_state_written_but_results_history_independent'].append(f'{mod_name}:{fn_name}')
         chk.decided(f'{mod_name}:{fn_name}/frame: no write to an argument or to module state [{lbl}]', not sm['n_bad'], detail=str(sm['bad']),
                     meta={'paths': sm['paths'], 'writes_executed': sm['writes'], 'alias_cases': sm['alias_cases'], 'function': f'{mod_name}:{fn_name}'},
                     model={'violations': sm['bad']})
         totals[0] += sm['paths']
         totals[1] += sm['writes']
         totals[2] += sm['alias_cases']
+    snap = _snapshot(mod_name)
     paths = chk.explore(make_call, base=full_base, opts=o, catch=CATCH, max_paths=600)
-    register(label, _summarise(paths))
+    sm0 = _summarise(paths)
+    sm0['module_state_changed'] = _changed_containers(snap)
+    register(label, sm0)
     names = list(kit.ARG_LOG)
     if shapes and names:
         variants = {'all 1-d': lambda n: ('row',)}
@@ -91,7 +163,7 @@ def frame_run(chk, label, mod_name, fn_name, make_call, base=(), expect_writes=T
                 variants[f'{a} scalar, others 1-d'] = lambda n, a=a: () if n == a else ('row',)
                 variants[f'{a} along its own dim'] = lambda n, a=a: ('own',) if n == a else ('row',)
         _TASK.clear()
-        _TASK.update(variants=variants, make_call=make_call, base=full_base, opts=o)
+        _TASK.update(variants=variants, make_call=make_call, base=full_base, opts=o, mod_name=mod_name)
         with multiprocessing.get_context('fork').Pool(min(12, len(variants))) as pool:
             results = pool.map(_variant_worker, list(variants))
         for res in results:
@@ -449,6 +521,11 @@ def replay(rec):
         r = _R()
         freshness_native(r)
         return {'reproduced': bool(r.failed), 'failed': r.failed[:3]}
+    if 'module-level container' in str(rec.get('model')):
+        # the call writes module-level state and a later result depends on it: re-run the history probe on the real function
+        mod_name, _, fn = rec.get('meta', {}).get('function', ':').partition(':')
+        fails = _history_probe(mod_name, fn)
+        return {'reproduced': bool(fails), 'history_probe': (fails or [])[:2]}
     import numpy as np
     import scipp as sc
     from vf.realrun import real_module
